@@ -254,7 +254,12 @@ type c19Step struct {
 	events int      // number of child events among obs (obs[0] is ret/panic for calls)
 }
 
-func (s c19Step) line() string { return s.req + " => " + strings.Join(s.obs, " ") }
+func (s c19Step) line() string {
+	if len(s.obs) == 0 {
+		return s.req
+	}
+	return s.req + " => " + strings.Join(s.obs, " ")
+}
 
 type c19Session struct {
 	flavour  string
@@ -353,6 +358,26 @@ func (s *c19Session) queryCaps() {
 		tok = c19CapsTok(capsT{got.Reporting(), got.Tagging()})
 	}
 	s.steps = append(s.steps, c19Step{req: "caps", obs: []string{tok}, kind: "caps"})
+}
+
+// changeCaps: the children change what they are capable of (a reporter that reports only while its connection is
+// up, a switchable wrapper); the multi reporter must answer with the conjunction of the CURRENT answers
+func (s *c19Session) changeCaps(r *Rng) {
+	if len(s.kids) == 0 {
+		return
+	}
+	caps := append([]capsT(nil), s.caps...)
+	for n := r.Range(1, len(caps)); n > 0; n-- {
+		i := r.Intn(len(caps))
+		caps[i] = capsT{r.Bool(), r.Bool()}
+	}
+	toks := make([]string, len(caps))
+	for i, cp := range caps {
+		s.kids[i].caps = cp
+		toks[i] = c19CapsTok(cp)
+	}
+	s.caps = caps
+	s.steps = append(s.steps, c19Step{req: "setcaps " + joinList(toks), kind: "setcaps"})
 }
 
 func (s *c19Session) flush() {
@@ -548,8 +573,15 @@ func c19RunSession(c *Ctx, r *Rng, flavour string, caps []capsT, length int) *c1
 	s.queryCaps()
 	for i := 0; i < length; i++ {
 		s.randomCall(r, c)
+		if r.Chance(6) {
+			s.changeCaps(r)
+			s.queryCaps()
+		}
 	}
 	s.flush()
+	if r.Chance(40) {
+		s.changeCaps(r)
+	}
 	s.queryCaps()
 	return s
 }
